@@ -2,7 +2,7 @@
 after the document it came from was edited."""
 from ..facts import (AnalysisBroken, walk, strip_casts, expr_str, is_null_const, const_val, ASSIGN_OPS, callee_name)
 from ..dataflow import node_effects
-from .common import all_functions, assignments, is_ref, node_containing
+from .common import all_functions, assignments, is_ref, node_containing, guarded_by, cmp_parts
 
 LOOKUP = {'get_item_from_pointer', 'cJSONUtils_GetPointer', 'cJSONUtils_GetPointerCaseSensitive'}
 # calls that may unlink or release nodes anywhere below their first argument
@@ -53,6 +53,27 @@ def tab18(units, R):
                     ok = False
                     why = 'cast to %s: indices >= 2^%d alias small ones' % (t['s'], t.get('bits', 0))
                 q = par.get(q['id'])
+            if not ok:
+                # a narrowing that only values which fit the narrower type can reach: if (index > INT_MAX) return NULL;
+                nb = min([u.ty(q2['ty']).get('bits', 64) for q2 in [p] if q2 is not None and q2.get('k') == 'cast'] + [dst.get('bits', 64)])
+                tnar = dst if dst.get('bits', 64) == nb else u.ty(p['ty'])
+                vmax = (1 << nb) - 1 if 'unsigned' in tnar['s'] else (1 << (nb - 1)) - 1
+                fcfg = fn.cfg()
+                node = fcfg.node_of_expr(x['id'])
+
+                def fits(nn, l, d=x['d'], vmax=vmax):
+                    if nn.kind != 'branch' or l is None or nn.expr is None:
+                        return False
+                    pc = cmp_parts(nn.expr)
+                    if pc is None or not is_ref(pc[0]) or strip_casts(pc[0])['d'] != d:
+                        return False
+                    (_e, op, c) = pc
+                    if l[0] == 'T':
+                        return (op == '<=' and c <= vmax) or (op == '<' and c <= vmax + 1) or (op == '==' and 0 <= c <= vmax)
+                    return (op == '>' and c <= vmax) or (op == '>=' and c <= vmax + 1)
+                if node is not None and guarded_by(fcfg, node.id, fits):
+                    ok = True
+                    why = 'narrowed to %s only after a test that the value fits (<= %d)' % (tnar['s'], vmax)
             R.ob('TAB18', fn, x, 'decoded index %s keeps its full width' % x['n'], ok, why,
                  key='index-width:%s:%s' % (x['n'], 'ok' if ok else why[:30]))
     R.floor('TAB18', 'uses of decoded array indices', n, 3)
